@@ -824,3 +824,123 @@ func VerifVOPCSpec() {
 	verif.Assert(verif.And(r.wf.SCC() == scc, verif.And(r.wf.M0 == m0, r.wf.PC() == pc)), "SCC, M0 or PC changed: "+tag)
 	verif.Cover("checked")
 }
+
+// zzvVOP1Spec: integer/bit VOP1 operations by mnemonic.
+func zzvVOP1Spec(name string, s0 uint64) (d uint64, known bool) {
+	a := s0 & 0xffffffff
+	clz := func(x uint64) uint64 { // leading zeros of a 32-bit value, 0xffffffff for 0
+		r := uint64(0xffffffff)
+		for i := 0; i < 32; i++ { // lowest set bit seen last wins -> highest set bit
+			r = verif.Ite64((x>>uint(i))&1 == 1, uint64(31-i), r)
+		}
+		return r
+	}
+	switch name {
+	case "v_mov_b32_e32":
+		return a, true
+	case "v_not_b32_e32":
+		return ^a & 0xffffffff, true
+	case "v_bfrev_b32_e32":
+		r := uint64(0)
+		for i := 0; i < 32; i++ {
+			r |= ((a >> uint(i)) & 1) << uint(31-i)
+		}
+		return r, true
+	case "v_ffbh_u32_e32":
+		return clz(a), true
+	case "v_ffbl_b32":
+		r := uint64(0xffffffff)
+		for i := 31; i >= 0; i-- { // highest set bit seen first, lowest wins
+			r = verif.Ite64((a>>uint(i))&1 == 1, uint64(i), r)
+		}
+		return r, true
+	case "v_ffbh_i32":
+		sign := (a >> 31) & 1
+		x := verif.Ite64(sign == 1, ^a&0xffffffff, a) // bits that differ from the sign
+		return clz(x), true
+	}
+	return 0, false
+}
+
+// VerifVOP1Spec (C03): the integer/bit VOP1 operations (mov, not, bit
+// reverse, find-first-bit high/low, signed find-first-bit) per lane on both
+// ALUs: destination of active lanes per the ISA, inactive lanes and every
+// other register untouched.
+func VerifVOP1Spec() {
+	gcn3 := verif.Choice(2) == 0
+	var rows []*insts.InstType
+	for _, r := range zzvVRows {
+		if r.Format.FormatType == insts.VOP1 {
+			if _, known := zzvVOP1Spec(r.InstName, 0); known {
+				rows = append(rows, r)
+			}
+		}
+	}
+	row := rows[verif.Choice(len(rows))]
+	inst := zzvEncodeVector(row, !gcn3)
+	if inst == nil {
+		return
+	}
+	a := []int{0, 31, 32, 63}[verif.Choice(verif.Param("specLanes", 4))]
+	b := (a + 37) % 64
+	la, lb := zzvNewLane(0x10), zzvNewLane(0x40)
+	sregs := verif.Bytes(4 * 102)
+	vccRest, scc, m0, pc := verif.U64(), verif.U8()&1, verif.U32(), verif.U64()
+	mask := ^(uint64(1)<<uint(a) | uint64(1)<<uint(b))
+	vcc0 := vccRest&mask | zzvBit(la.vcc, a) | zzvBit(lb.vcc, b)
+	exec0 := zzvBit(la.exec, a) | zzvBit(lb.exec, b)
+	fill := func(wf *emu.Wavefront, lds []byte) {
+		copy(wf.SRegFile, sregs)
+		copy(wf.VRegFile[a*1024:], la.regs)
+		copy(wf.VRegFile[b*1024:], lb.regs)
+		wf.SetEXEC(exec0)
+		wf.SetVCC(vcc0)
+		wf.SetSCC(scc)
+		wf.M0 = m0
+		wf.SetPC(pc)
+	}
+	tag := "vop1." + row.InstName
+	if gcn3 {
+		tag = "gcn3 " + tag
+	} else {
+		tag = "cdna3 " + tag
+	}
+	r := zzvExec(gcn3, inst, map[uint64]uint8{}, fill)
+	verif.Assert(r.fault == "", "memory fault while executing "+tag)
+	if r.fault != "" {
+		return
+	}
+	if r.notImplemented {
+		verif.Cover("not implemented: " + tag)
+		return
+	}
+	lanes := []int{a, b}
+	ok := true
+	for li, l := range []*zzvLane{la, lb} {
+		s0 := uint64(zzvLE32(l.regs[4*zzvRSrc0:]))
+		d0 := uint64(zzvLE32(l.regs[4*zzvRDst:]))
+		want, _ := zzvVOP1Spec(row.InstName, s0)
+		got := uint64(zzvLE32(r.wf.VRegFile[lanes[li]*1024+4*zzvRDst:]))
+		ok = verif.And(ok, got == verif.Ite64(l.exec, want, d0))
+	}
+	verif.Assert(ok, "vector destination differs from the ISA (or an inactive lane was written): "+tag)
+	frame := true
+	for _, lane := range lanes {
+		src := la
+		if lane == b {
+			src = lb
+		}
+		for i := 0; i < 4*zzvRTop; i++ {
+			if i >= 4*zzvRDst && i < 4*zzvRDst+4 {
+				continue
+			}
+			frame = verif.And(frame, r.wf.VRegFile[lane*1024+i] == src.regs[i])
+		}
+	}
+	for i := range sregs {
+		frame = verif.And(frame, r.wf.SRegFile[i] == sregs[i])
+	}
+	verif.Assert(frame, "a register other than the destination changed: "+tag)
+	verif.Assert(verif.And(r.wf.VCC() == vcc0, verif.And(r.wf.EXEC() == exec0, verif.And(r.wf.SCC() == scc, verif.And(r.wf.M0 == m0, r.wf.PC() == pc)))), "VCC, EXEC, SCC, M0 or PC changed: "+tag)
+	verif.Cover("checked")
+}
